@@ -62,3 +62,51 @@ func reorgPlan(r *rng.R, t *chaingen.Tree) []mgrsim.Op {
 	}
 	return plan
 }
+
+// flipFlopPlan first submits a short prefix of every valid branch (heaviest branches first, so
+// that several of them become the tip for a moment or are at least stored), then the branches
+// in full in order of increasing work: the node returns to branches it has left, re-applies
+// their stored blocks and continues with blocks it has never applied.
+func flipFlopPlan(r *rng.R, t *chaingen.Tree) []mgrsim.Op {
+	var leaves []*chaingen.Node
+	for _, x := range t.Nodes {
+		if x.Parent == nil || !x.ChainValid() {
+			continue
+		}
+		leaf := true
+		for _, c := range x.Children {
+			if c.ChainValid() {
+				leaf = false
+			}
+		}
+		if leaf {
+			leaves = append(leaves, x)
+		}
+	}
+	sort.SliceStable(leaves, func(i, j int) bool {
+		a, _ := leaves[i].Work()
+		b, _ := leaves[j].Work()
+		return a.Cmp(b) < 0
+	})
+	ids := func(ns []*chaingen.Node) (out []int) {
+		for _, y := range ns {
+			out = append(out, y.Idx)
+		}
+		return
+	}
+	var plan []mgrsim.Op
+	// prefixes, heaviest branch first, each one block longer than the one before so that it takes over
+	n := 1
+	for i := len(leaves) - 1; i >= 0; i-- {
+		p := t.Path(leaves[i])
+		if n >= len(p) {
+			continue
+		}
+		plan = append(plan, mgrsim.Op{Kind: "add", Nodes: ids(p[:n])})
+		n += 1 + r.Intn(2)
+	}
+	for _, leaf := range leaves {
+		plan = append(plan, mgrsim.Op{Kind: "add", Nodes: ids(t.Path(leaf))})
+	}
+	return plan
+}
